@@ -54,7 +54,7 @@ def irdt(dt: str):
     return {"f32": ir.DataType.FLOAT, "i64": ir.DataType.INT64, "b": ir.DataType.BOOL}[dt]
 
 
-NPDT = {"f32": np.float32, "i64": np.int64, "b": np.bool_}
+NPDT = {"f32": np.float32, "i64": np.int64, "b": np.bool_, "b8": np.bool_}
 
 # --------------------------------------------------------------------------- function table
 
@@ -94,6 +94,8 @@ def make_functions(opset=None):
         ("s_two", fns.s_two, lambda a: [-a, np.abs(a)], 1, 2, {}),
         ("s_scale", fns.s_scale, lambda a, alpha=1.0: [a * np.float32(alpha)], 1, 1, {"alpha": (False, [1.5, 2.0, -0.5])}),
         # regression for e7b46e0 / 1ed6700: an output that is one of the inputs; a defaulted attribute
+        # a bool operand of a function call (no sibling to take a type from)
+        ("sel", bf("sel", lambda op, c, a, b: op.Where(c, a, b), 3), lambda c, a, b: [np.where(c, a, b)], 3, 1, {}),
         ("swapneg", bf("swapneg", lambda op, a, b: [b, op.Neg(a)], 2), lambda a, b: [b, -a], 2, 2, {}),
         ("s_default", fns.s_default, lambda a, alpha=2.0: [a * np.float32(alpha)], 1, 1, {"alpha": (True, [1.5, -0.5, 3.0])}),
         # falsy declared defaults (0.0, 0) whose operator-schema default differs (LeakyRelu 0.01, Softmax -1)
@@ -329,7 +331,14 @@ class RealExec:
                 kw["_outputs"] = o[1] if o[0] == "a" else list(o[1])
                 if it.get("nname") is not None:
                     kw["_name"] = it["nname"]
-                res = getattr(op, it["op"])(*[self.arg(a) for a in it["args"]], **kw)
+                pos = [self.arg(a) for a in it["args"]]
+                if it.get("kw_inputs"):
+                    for kname, idx in it["kw_inputs"].items():
+                        kw[kname] = pos[idx]
+                    pos = pos[: min(it["kw_inputs"].values())]
+                    while pos and pos[-1] is None:
+                        pos.pop()
+                res = getattr(op, it["op"])(*pos, **kw)
                 self.handles += [res] if isinstance(res, ir.Value) else list(res)
             elif k == "P":
                 builder.push_module(it["name"])
@@ -551,7 +560,7 @@ class Replay:
 
     def lit(self, a, like):
         if a[0] == "s":
-            dt = a[2] or ("f32" if isinstance(a[1], float) else "i64")
+            dt = a[2] or ("b" if isinstance(a[1], bool) else "f32" if isinstance(a[1], float) else "i64")
             return np.asarray(a[1], dtype=NPDT[dt])
         return np.asarray(a[1], dtype=np.int64)
 
@@ -751,6 +760,11 @@ class TraceGen:
             a = self.pick(lambda v: v[1] == "b")
             if a is None:
                 return self.gen_op(items, in_sub)
+            if a[3] and rng.random() < 0.3:  # bool literal beside a typed BOOL value: `const_True_b8`
+                self.emit_op(items, rng.choice(BIN["b"]), [["r", a[0]], ["s", rng.choice([True, False]), "b8"]],
+                             [("b", a[2])], in_sub)
+                self.stats["bool_lit_sibling"] += 1
+                return
             b = self.pick(lambda v: v[1] == "b" and (v[2] == a[2] or len(v[2]) == 0 or len(a[2]) == 0))
             shp = tuple(np.broadcast_shapes(a[2], b[2]))
             self.emit_op(items, rng.choice(BIN["b"]), [["r", a[0]], ["r", b[0]]], [("b", shp)], in_sub, typed=a[3] and b[3])
@@ -759,6 +773,14 @@ class TraceGen:
             x = self.pick(lambda v: v[1] != "b")
             if c is None or not (c[2] == x[2] or len(c[2]) == 0 or len(x[2]) == 0 or c[2] == (1,) or x[2] == (1,)):
                 return self.gen_op(items, in_sub)
+            if rng.random() < 0.3:
+                # a Python bool with no like-typed sibling: untyped literal -> `const_True` (BOOL by inference)
+                y = self.pick(lambda v: v[1] == x[1] and v[2] == x[2])
+                self.emit_op(items, "Where", [["s", rng.choice([True, False]), None], ["r", x[0]], ["r", y[0]]],
+                             [(x[1], x[2])], in_sub, typed=x[3] and y[3])
+                self.stats["bool_lit_no_sibling"] += 1
+                self.stats["bool_lit_where"] += 1
+                return
             shp = tuple(np.broadcast_shapes(c[2], x[2]))
             self.emit_op(items, "Where", [["r", c[0]], ["r", x[0]], ["r", x[0]]], [(x[1], shp)], in_sub, typed=c[3] and x[3])
         elif kind == "cast":
@@ -773,6 +795,10 @@ class TraceGen:
                 return self.gen_op(items, in_sub)
             if rng.random() < 0.3:  # an absent optional operand (`None`)
                 self.emit_op(items, "Clip", [["r", v[0]], ["n"], ["s", 1.0, "f32"]], [("f32", v[2])], in_sub)
+                if rng.random() < 0.5:
+                    # written `op.Clip(x, max=1.0)`: the keyword input must land in its own slot (b7afd5e)
+                    items[-1]["kw_inputs"] = {"max": 2}
+                    self.stats["keyword_input_after_omitted"] += 1
                 self.stats["none_operand"] += 1
                 self.stats["lit_scalar"] += 1
             else:
@@ -843,6 +869,7 @@ class TraceGen:
         name, obj, impl, nin, nout, attrs = self.fntab[fi]
         if name == "swapneg":
             inline = True  # onnxruntime refuses a FunctionProto whose output is one of its inputs: inline only
+
         siblings = [j for j, f in enumerate(self.fntab) if f[0] == name and j != fi]
         if siblings:
             self.stats["call_overloaded_name" if not inline else "inline_overloaded_name"] += 1
@@ -850,6 +877,10 @@ class TraceGen:
         if any(s is None for s in srcs):
             return self.gen_op(items, in_sub)
         args = [["r", s[0]] for s in srcs]
+        if name == "sel":
+            args[0] = ["s", rng.choice([True, False]), None]
+            self.stats["bool_lit_no_sibling"] += 1
+            self.stats["bool_lit_call"] += 1
         at_ = {}
         for an, (optional, choices) in attrs.items():
             if optional and rng.random() < 0.5:
@@ -860,6 +891,9 @@ class TraceGen:
         plain = bool(at_) and rng.random() < 0.5  # plain Python attribute value instead of ir.Attr
         self.stats["plain_attr"] += plain
         if inline:
+            if rng.random() < 0.25 and nin == 2 and name != "swapneg":
+                args[1] = ["s", rng.choice([1.5, 0.5, 2.0]), "f32"]  # literal operand of an inlined function (06b8334)
+                self.stats["inline_literal_arg"] += 1
             o = [self.fresh() for _ in range(nout)] if rng.random() < 0.35 else None
             pfx = rng.choice(["", "", "pre", "layers.1"])
             items.append({"k": "L", "f": fi, "args": args, "outs": o, "pfx": pfx, "attrs": at_, "plain": plain})
@@ -916,7 +950,12 @@ class TraceGen:
             items.append(self.gen_sub(f"{br}_{self.fresh('g')}", [], body_fn, 1))
             idx.append(self.ndone - 1)
         o = self.outs_for(1, depth > 0)
-        items.append({"k": "O", "op": "If", "args": [["r", cond[0]]], "outs": o, "nname": self.nname_for(depth > 0),
+        cond_arg = ["r", cond[0]]
+        if self.rng.random() < 0.25:
+            cond_arg = ["s", self.rng.choice([True, False]), None]
+            self.stats["bool_lit_no_sibling"] += 1
+            self.stats["bool_lit_if"] += 1
+        items.append({"k": "O", "op": "If", "args": [cond_arg], "outs": o, "nname": self.nname_for(depth > 0),
                       "graphs": idx, "gattr": ["then_branch", "else_branch"], "attrs": {}})
         self.vis.append((self.h, want[0], want[1], False))
         self.h += 1
@@ -950,7 +989,12 @@ class TraceGen:
         gi = self.ndone - 1
         m = self.rng.choice([0, 1, 2, 3])
         o = self.outs_for(1, depth > 0)
-        items.append({"k": "O", "op": "Loop", "args": [["s", m, "i64"], ["r", cond[0]], ["r", acc[0]]], "outs": o,
+        cond_arg = ["r", cond[0]]
+        if self.rng.random() < 0.3:
+            cond_arg = ["s", self.rng.choice([True, True, False]), None]
+            self.stats["bool_lit_no_sibling"] += 1
+            self.stats["bool_lit_loop"] += 1
+        items.append({"k": "O", "op": "Loop", "args": [["s", m, "i64"], cond_arg, ["r", acc[0]]], "outs": o,
                       "nname": self.nname_for(depth > 0), "graphs": [gi], "gattr": ["body"], "attrs": {}})
         self.vis.append((self.h, want[0], want[1], False))
         self.h += 1
@@ -1018,7 +1062,6 @@ def refusal_cases(rng, stats):
         "pop_after_push": [{"k": "P", "name": "m"}, {"k": "Q"}, {"k": "Q"}],
         "inline_too_many_inputs": [{"k": "L", "f": fi2, "args": [["r", 0], ["r", 1], ["r", 1]], "outs": None, "pfx": "", "attrs": {}}],
         "inline_outputs_mismatch": [{"k": "L", "f": fi2, "args": [["r", 0], ["r", 1]], "outs": ["only_one"], "pfx": "p", "attrs": {}}],
-        "inline_literal_operand": [{"k": "L", "f": fi2, "args": [["r", 0], ["s", 1.5, "f32"]], "outs": None, "pfx": "", "attrs": {}}],
     }
     for kind, tail in kinds.items():
         c = wrap_case(base + tail, fntab, "none", 21)
@@ -1209,6 +1252,11 @@ def check_builder_cases(run, drv, cases, stats, rng, do_ort=True):
             problems.append((c, "property", "names not unique: " + what, dv, dn))
             stats["builder_dup_names"] += 1
             continue
+        bad = [(n, str(ex.g.initializers[n].const_value.dtype), d) for n, d in expected_literal_dtypes(c["trace"], {}).items()
+               if n in ex.g.initializers and str(ex.g.initializers[n].const_value.dtype) != d]
+        if bad:
+            problems.append((c, "property", f"initializer {bad[0][0]} holds {bad[0][1]}, the literal rule says {bad[0][2]}", {}, {}))
+            continue
         du = defuse_ok(proto)
         if du:
             problems.append((c, "property", "def-use: " + du, {}, {}))
@@ -1240,6 +1288,23 @@ def check_builder_cases(run, drv, cases, stats, rng, do_ort=True):
                 problems.append((c, "property", f"output {j}: onnxruntime {a.tolist()} vs numpy replay {b.tolist()}", {}, {}))
                 break
     return problems
+
+
+def expected_literal_dtypes(items, out):
+    """the literal rule: `const_{repr}_{suffix}` holds the suffix's dtype; an untyped Python literal (`const_{repr}`)
+    holds what its Python type says — bool -> BOOL."""
+    names = {"f32": "FLOAT", "i64": "INT64", "b8": "BOOL"}
+    for it in items:
+        if it["k"] in ("O", "C", "L"):
+            for a in it["args"]:
+                if a[0] == "s":
+                    if a[2]:
+                        out[f"const_{a[1]}_{a[2]}"] = names[a[2]]
+                    elif isinstance(a[1], bool):
+                        out[f"const_{a[1]}"] = "BOOL"
+        elif it["k"] == "S":
+            expected_literal_dtypes(it["body"], out)
+    return out
 
 
 def first_diff(a: str, b: str) -> str:
@@ -1298,6 +1363,43 @@ def witness_cases(fntab):
     ]
     out["D20f"] = wrap_case(t, tab3, "none")
     return out
+
+
+def witness_d20g():
+    """`op.Clip(x, max=0.5)`: the keyword input must stay in the `max` slot."""
+    r = R()
+    ir, B = r.ir, r.B
+    g = ir.Graph(name="main", inputs=[], outputs=[], nodes=[], opset_imports={"": OPSET})
+    gb = B.GraphBuilder(g)
+    x = gb.input("x", ir.DataType.FLOAT, [3])
+    y = gb.op.Clip(x, max=0.5)
+    gb.add_output(y, "y")
+    node = list(g)[0]
+    ins = ["~" if i is None else i.name for i in node.inputs]
+    got = run_ort(ir.to_proto(ir.Model(g, ir_version=10)), {"x": np.array([-1.0, 0.25, 2.0], dtype=np.float32)})[0].tolist()
+    return ins, got, [-1.0, 0.25, 0.5]
+
+
+def witness_d20i():
+    """`call_inline(f, x, 2.0)` vs `call(f, x, 2.0)`."""
+    r = R()
+    ir, B = r.ir, r.B
+    f = B.build_function(lambda op, a, b: op.Add(a, b), [ir.Value(name="a"), ir.Value(name="b")], domain="c18",
+                         name="addlit", opset_imports={"": OPSET})
+    res = {}
+    for how in ("call", "call_inline"):
+        g = ir.Graph(name="main", inputs=[], outputs=[], nodes=[], opset_imports={"": OPSET, "c18": 1})
+        gb = B.GraphBuilder(g)
+        x = gb.input("x", ir.DataType.FLOAT, [3])
+        try:
+            y = getattr(gb.op, how)(f, x, 2.0)
+            y.type, y.shape = ir.TensorType(ir.DataType.FLOAT), ir.Shape([3])
+            gb.add_output(y, "y")
+            proto = ir.to_proto(ir.Model(g, ir_version=10, functions=list(gb.functions.values())))
+            res[how] = run_ort(proto, {"x": np.array([1, -2, 3], dtype=np.float32)})[0].tolist()
+        except Exception as e:
+            res[how] = "RAISES " + type(e).__name__
+    return res
 
 
 def witness_d20d():
@@ -1822,7 +1924,7 @@ def check_partition(run, drv, stats, rng, n):
         seen_versions.add((op, since))
         try:
             ins, attrs = gb._partition_inputs_attributes(schema, list(args), dict(kw))
-            real = "OK " + ";".join(ins) + " | " + "&".join(f"{k}={v}" for k, v in attrs.items())
+            real = "OK " + ";".join("~" if i is None else i for i in ins) + " | " + "&".join(f"{k}={v}" for k, v in attrs.items())
             stats["part_ok"] += 1
         except TypeError as e:
             msg = str(e)
@@ -1842,7 +1944,7 @@ def check_partition(run, drv, stats, rng, n):
         else:
             # the property side: a positional argument that is neither an input nor an attribute value was dropped
             if real.startswith("OK"):
-                placed = set(ins) | set(attrs.values())
+                placed = {i for i in ins if i is not None} | set(attrs.values())
                 if not set(args) <= placed:
                     problems.append(({"partition": {"op": op, "version": ver, "args": args, "kwargs": kw}}, "property",
                                      f"{op}@{ver}: positional arguments {sorted(set(args) - placed)} silently dropped"))
@@ -1967,6 +2069,20 @@ def main(run: core.Run) -> None:
             run.known("D20d", f"call_inline(s_default, x) without the defaulted attribute: {d['inline']}; call(...) gives {d['call']}")
         else:
             all_problems.append(({"witness": "D20d"}, "property", f"call_inline vs call: {d}", {}, {}))
+    ins_g, got_g, want_g = witness_d20g()
+    if got_g != want_g:
+        what = f"op.Clip(x, max=0.5) builds Clip({', '.join(ins_g)}): onnxruntime {got_g}, NumPy clip(x, None, 0.5) = {want_g}"
+        if "D20g" in findings:
+            run.known("D20g", what)
+        else:
+            all_problems.append(({"witness": "D20g"}, "property", what, {}, {}))
+    di = witness_d20i()
+    if di["call"] != di["call_inline"]:
+        what = f"call(f, x, 2.0) -> {di['call']}; call_inline(f, x, 2.0) -> {di['call_inline']}"
+        if "D20i" in findings:
+            run.known("D20i", what)
+        else:
+            all_problems.append(({"witness": "D20i"}, "property", what, {}, {}))
     nw = nn_witnesses()
     for fid in ("D20b", "D20e"):
         got, want = nw[fid]
@@ -2041,7 +2157,7 @@ def main(run: core.Run) -> None:
     )
     if stats["builder_cases"] and stats["builder_real_error"] > 0.3 * stats["builder_cases"]:
         raise core.Infra("generator degenerated: >30% of traces refused by the builder")
-    for need in ("If", "Loop", "inline", "call", "two_overloads_in_trace", "call_overloaded_name", "inline_passthrough", "default_attr_omitted", "plain_attr", "nested_list_after_naming", "nn_param_in_depth2_subgraph", "none_operand", "refusal_pop_empty", "refusal_inline_too_many_inputs", "refusal_inline_outputs_mismatch", "refusal_inline_literal_operand", "part_ok", "part_extra-kwargs", "part_missing", "part_too-many", "reduce_axes_attr", "default_attr_omitted_s_leaky0", "default_attr_omitted_s_softmax0", "lit_list", "multi_output", "push", "append_after_naming", "slice", "kind_seq", "kind_list"):
+    for need in ("If", "Loop", "inline", "call", "two_overloads_in_trace", "call_overloaded_name", "inline_passthrough", "default_attr_omitted", "plain_attr", "nested_list_after_naming", "nn_param_in_depth2_subgraph", "bool_lit_where", "bool_lit_if", "bool_lit_loop", "bool_lit_call", "bool_lit_sibling", "none_operand", "keyword_input_after_omitted", "refusal_pop_empty", "refusal_inline_too_many_inputs", "refusal_inline_outputs_mismatch", "inline_literal_arg", "part_ok", "part_extra-kwargs", "part_missing", "part_too-many", "reduce_axes_attr", "default_attr_omitted_s_leaky0", "default_attr_omitted_s_softmax0", "lit_list", "multi_output", "push", "append_after_naming", "slice", "kind_seq", "kind_list"):
         if not stats[need]:
             raise core.Infra(f"generator never produced construct {need}")
 
